@@ -160,7 +160,15 @@ def generate(seed, tier, prop):
         couplings.append(c)
     # run ------------------------------------------------------------------------------------------
     T = rng.randint(3, 6)
-    kind = rng.choice(["control", "control2", "timeseries", "timeseries"])
+    kind = rng.choice(["control", "control2", "timeseries", "timeseries", "control_recover"])
+    if kind == "control_recover" and not any(c["type"] == "p2g" for c in couplings):
+        kind = "control"
+    late = (kind == "control_recover") or (kind == "timeseries" and not fault_free and rng.random() < 0.5)
+    if late:
+        # no initial runs: a member can then only diverge AFTER the coupling controllers have acted, so that
+        # whatever they keep across runs / steps (flags, cached values) meets an aborted control loop
+        for c in couplings:
+            c["initial_run"] = False
     const, profiles = [], {}
     bad = []
     if kind == "timeseries":
@@ -177,8 +185,8 @@ def generate(seed, tier, prop):
             profiles[nm] = [round(base * rng.uniform(0.5, 1.5), 8) for _ in range(T)]
             const.append({"net": nn, "element": el, "variable": var, "element_index": [idx], "profile": [nm],
                           "scale_factor": 1.0, "order": -1, "level": rng.choice([-1, 0]), "initial_run": False})
-            if not fault_free and rng.random() < 0.5:
-                t_bad = rng.randrange(T)
+            if not fault_free and rng.random() < (0.9 if late else 0.5):
+                t_bad = rng.randrange(T - 1) if late else rng.randrange(T)
                 profiles[nm][t_bad] = round(base * (1e4 if el == "sink" else 5e3), 6)
                 bad.append(t_bad)
     steps = list(range(T))
@@ -204,7 +212,17 @@ def generate(seed, tier, prop):
             snk = [o for o in gas["ops"] if o["fn"] == "create_sink" and o["kw"]["index"] not in written]
             if snk:
                 rng.choice(snk)["kw"]["mdot_kg_per_s"] = 60.0
-    return {"engine": ENGINE, "prop": prop, "seed": seed, "tier": tier, "nets": nets, "couplings": couplings,
+    recover = None
+    if kind == "control_recover":
+        c0 = [c for c in couplings if c["type"] == "p2g"][0]
+        li = c0["power_idx"][0]
+        good = [l for l in power["loads"] if l["index"] == li][0]["p_mw"]
+        recover = {"net": "power", "table": "load", "index": li, "col": "p_mw", "bad": 3000.0, "good": good}
+    # member nets without a controller of their own always get an initial run (pandapower rule); a passive
+    # ConstControl (no data source: it keeps the stored value) with initial_run=False switches that off
+    passive = sorted(nets) if late else []
+    return {"engine": ENGINE, "prop": prop, "seed": seed, "tier": tier, "nets": nets, "couplings": couplings, "recover": recover,
+            "passive_const": passive,
             "const": const, "profiles": profiles, "n_steps": T, "run": run, "faults": faults,
             "permute": rng.random() < 0.5, "perm_seed": rng.randrange(1 << 30),
             "restart": (rng.choice(["json_str", "json_enc"]) if (prop == "C15" or rng.random() < 0.15) and kind in ("control", "control2") else None),
@@ -322,6 +340,14 @@ def build_world(trace, order_override=None):
                                    name_gas_net_to=c["to_net"], **common)
         except KeyError:
             continue  # shrunk trace: a member net was removed
+    for nn in trace.get("passive_const", []):
+        if nn not in nets:
+            continue
+        n = nets[nn]
+        el, var = ("load", "p_mw") if nn == "power" else ("sink", "mdot_kg_per_s")
+        if el in n and len(n[el]):
+            ConstControl(n, element=el, variable=var, element_index=[n[el].index[0]], data_source=None,
+                         order=99, level=9, initial_run=False)   # after every coupling level
     for c in trace["const"]:
         if c["net"] not in nets or ds is None:
             continue
@@ -429,7 +455,10 @@ def _execute(trace, res, solver):
     cps = trace["couplings"]
     res.sig_parts.append(run["kind"] + ":" + ",".join(sorted(c["type"] for c in cps)))
     res.nontrivial = True
-    if run["kind"] in ("control", "control2"):
+    if run["kind"] == "control_recover" and trace.get("recover"):
+        _execute_recover(trace, res, solver, kw, cps)
+        return
+    if run["kind"] in ("control", "control2", "control_recover"):
         mn, nets = build_world(trace)
         model = Model(trace)
         model.apply_couplings(cps)
@@ -553,6 +582,48 @@ def _restart_multinet(res, mn, nets, path):
 def snap_canon(o):
     from .snap import canon_deep
     return canon_deep(o)
+
+
+def _execute_recover(trace, res, solver, kw, cps):
+    """History: a control run that must fail (a coupled load the nets cannot serve, no initial runs, so the
+    member diverges after the couplings acted) - the value is restored - a second control run on the same
+    multinet must then behave like a first run on a fresh one."""
+    rc = trace["recover"]
+    mn, nets = build_world(trace)
+    if rc["index"] not in nets[rc["net"]][rc["table"]].index:
+        return
+    nets[rc["net"]][rc["table"]].at[rc["index"], rc["col"]] = rc["bad"]
+    first = None
+    try:
+        run_control_mn(mn, **kw)
+    except CONV_ERRORS as e:
+        first = e
+    except Exception as e:
+        res.violate("C20", "C20/control-run-raised:%s" % _exc_sig(e), repr(e)[:200])
+        return
+    res.count("mn-control-run")
+    if first is None:
+        res.count("probe:recover-first-run-did-not-fail")
+    else:
+        res.count("probe:recover-first-run-failed")
+    nets[rc["net"]][rc["table"]].at[rc["index"], rc["col"]] = rc["good"]
+    model = Model(trace)
+    model.apply_couplings(cps)
+    twins = _twin_nets(trace, model, kw, solver)
+    if any(t[1] != "ok" for t in twins.values()):
+        return
+    try:
+        run_control_mn(mn, **kw)
+    except CONV_ERRORS as e:
+        res.violate("C20", "C20/no-recovery-after-failed-run:%s" % type(e).__name__, repr(e)[:160])
+        return
+    except Exception as e:
+        res.violate("C20", "C20/control-run-raised:%s" % _exc_sig(e), repr(e)[:200])
+        return
+    res.count("mn-control-run")
+    _check_written(res, nets, model, "control-after-failed-run", cps)
+    _compare_member(res, nets, twins, "control-after-failed-run")
+    res.count("probe:recover-second-run-checked")
 
 
 def _independent(cps):
